@@ -6,6 +6,8 @@ package main
 
 import (
 	"fmt"
+	"os"
+	"path/filepath"
 	"go/constant"
 	"go/token"
 	"go/types"
@@ -21,6 +23,7 @@ type Oblig struct {
 	Kind    string // safety, pre, post, inv, frame, cut, variant, ...
 	Cond    *Term  // must be valid under the assumptions with index < NAssume
 	NAssume int
+	Hyps    []*Term // snapshot of the active assumptions when the obligation was generated
 	Note    string
 }
 
@@ -38,6 +41,9 @@ type VC struct {
 	Extern   map[string]bool // external/stdlib functions with built-in contracts
 	Unsup    []string
 	DefInst  []string         // instantiated defining equations (assume_def)
+	chainPC  *Term
+	chainIdx int              // index+1 of the current link of a lemma chain in Assumes
+	dropped  map[int]bool     // assumptions superseded by a later link of a lemma chain
 	CutSyms  map[string]*Term // named cut symbols
 	Globals  map[*ssa.Global]*Alloc
 	GState   *State // state after package init
@@ -73,7 +79,15 @@ func (vc *VC) Oblige(name, kind string, cond *Term) {
 	if n := vc.names[name]; n > 1 {
 		name = fmt.Sprintf("%s#%d", name, n)
 	}
-	vc.Obligs = append(vc.Obligs, &Oblig{Name: name, Kind: kind, Cond: cond, NAssume: len(vc.Assumes)})
+	o := &Oblig{Name: name, Kind: kind, Cond: cond, NAssume: len(vc.Assumes)}
+	if len(vc.dropped) > 0 {
+		for i, a := range vc.Assumes {
+			if !vc.dropped[i] {
+				o.Hyps = append(o.Hyps, a)
+			}
+		}
+	}
+	vc.Obligs = append(vc.Obligs, o)
 }
 
 func (vc *VC) NewAlloc(name string, t types.Type, heap bool) *Alloc {
@@ -120,6 +134,14 @@ type Exec struct {
 	dbg    map[string][]ssa.Value
 	callN  map[string]int
 	top    *Exec
+	aliasedBuf    *Alloc
+	usedDirs      map[int]bool
+	phiNames      map[*ssa.Phi]string
+	curPhi        *ssa.Phi
+	prune         bool
+	pruneAssumes  []*Term
+	pruneCache    map[*Term]bool
+	pruneQueries  int
 	callRes       map[string]Value
 	hdrState      map[*loopInfo]*State
 	hdrPhis       map[*loopInfo]map[*ssa.Phi]Value
@@ -417,6 +439,19 @@ func (ex *Exec) execBlock(b *ssa.BasicBlock, edges []Edge) []Edge {
 		ex.env[phi] = v
 	}
 	st = st.Clone()
+	if ex.fc != nil && len(phiVals) > 0 {
+		for _, ins := range b.Instrs {
+			phi, ok := ins.(*ssa.Phi)
+			if !ok {
+				break
+			}
+			if name := ex.phiPoint(phi); name != "" {
+				ex.curPhi = phi
+				ex.pointDirectives("at "+name, b, pc, st, nil)
+				ex.curPhi = nil
+			}
+		}
+	}
 	return ex.execInstrs(b, 0, pc, st)
 }
 
@@ -429,6 +464,15 @@ func (ex *Exec) execInstrs(b *ssa.BasicBlock, from int, pc *Term, st *State) []E
 			continue
 		case *ssa.If:
 			c := ex.term(ex.val(i.Cond))
+			if ex.top.prune && !c.IsConst() {
+				// feasibility pruning under the function's preconditions (sound: only edges proved
+				// unreachable are dropped)
+				if !ex.feasible(And(pc, c)) {
+					c = False
+				} else if !ex.feasible(And(pc, Not(c))) {
+					c = True
+				}
+			}
 			snap := ex.snapshot(b)
 			out = append(out, Edge{from: b, to: b.Succs[0], pc: And(pc, c), st: st, env: snap})
 			out = append(out, Edge{from: b, to: b.Succs[1], pc: And(pc, Not(c)), st: st, env: snap})
@@ -1053,7 +1097,16 @@ func (ex *Exec) unop(i *ssa.UnOp, pc *Term, st *State) Value {
 	x := ex.val(i.X)
 	switch i.Op {
 	case token.MUL:
-		return ex.load(st, x, pc)
+		v := ex.load(st, x, pc)
+		// *(*string)(unsafe.Pointer(&b)): a []byte header read as a string header (T6)
+		if sl, ok := v.(*SliceV); ok && sortOfType(i.Type()) == SStr {
+			if sa, ok := st.mem[sl.Base].(*SymArrV); ok {
+				ex.vc.Extern["unsafe: []byte header reinterpreted as string header (T6)"] = true
+				ex.top.aliasedBuf = sl.Base
+				return mkStr(sa.Arr, sl.Off, sl.Len)
+			}
+		}
+		return v
 	case token.NOT:
 		return Not(ex.term(x))
 	case token.SUB:
@@ -1418,4 +1471,50 @@ func (ex *Exec) noteAlloc(ins ssa.Instruction, kind string, pc *Term, st *State)
 		return
 	}
 	st.allocs = Ite(pc, IAdd(st.allocs, IntLit(1)), st.allocs)
+}
+
+// feasible asks the solver whether cond is satisfiable together with the preconditions.
+func (ex *Exec) feasible(cond *Term) bool {
+	top := ex.top
+	if cond.IsFalse() {
+		return false
+	}
+	if top.pruneCache == nil {
+		top.pruneCache = map[*Term]bool{}
+	}
+	if v, ok := top.pruneCache[cond]; ok {
+		return v
+	}
+	top.pruneQueries++
+	prelude, _, _ := ex.vc.W.PreludeFor(ex.top.pkg)
+	script := ScriptFor(prelude, top.pruneAssumes, Not(cond), false)
+	script = strings.Replace(script, "(get-model)\n", "", 1)
+	sts, out, _ := RunBatch(script, filepath.Join(smtOutDir, "prune"), fmt.Sprintf("q%d_%d", os.Getpid(), top.pruneQueries), 5, "z3-5")
+	res := true
+	if len(sts) == 1 && sts[0] == "unsat" && !errorBeforeStatus(out) {
+		res = false
+	}
+	top.pruneCache[cond] = res
+	return res
+}
+
+// phiPoint names the k-th phi (in block order) of a source variable: "l#3".
+func (ex *Exec) phiPoint(phi *ssa.Phi) string {
+	if ex.phiNames == nil {
+		ex.phiNames = map[*ssa.Phi]string{}
+		cnt := map[string]int{}
+		for _, b := range ex.fn.Blocks {
+			for _, ins := range b.Instrs {
+				p, ok := ins.(*ssa.Phi)
+				if !ok {
+					break
+				}
+				if p.Comment != "" {
+					cnt[p.Comment]++
+					ex.phiNames[p] = fmt.Sprintf("%s#%d", p.Comment, cnt[p.Comment])
+				}
+			}
+		}
+	}
+	return ex.phiNames[phi]
 }
